@@ -237,7 +237,7 @@ func TestC06Enum(t *testing.T) {
 		if i%nshards != shard || ec.Data {
 			continue
 		}
-		if !Thorough() && Hash(seed, i, "c06")%4 != 0 {
+		if !Thorough() && Hash(seed, i, "c06")%4 != 0 && !ec.HalfFreed {
 			continue
 		}
 		d := NewDisk(9000)
@@ -245,6 +245,9 @@ func TestC06Enum(t *testing.T) {
 		w, err := setupWorld(true, true, d)
 		if err != nil {
 			t.Fatalf("setup: %v", err)
+		}
+		if ec.HalfFreed {
+			makeHalfFreed(w)
 		}
 		api := w.S.API()
 		for _, o := range ec.Pre {
